@@ -27,7 +27,8 @@ func (c19) Rule() string {
 }
 func (c19) Assumptions() []string {
 	return []string{
-		"label values are small integers or floats that are either identical or far apart (the library's absolute equality tolerance is 1e-240); NaN / Inf labels are not generated",
+		"label values are small integers, floats that are either identical or far apart (the library's absolute equality tolerance is 1e-240), -0, huge values, NaN (never equal to anything) and +-Inf (equal to itself)",
+		"besides the seeded re-partition, the same data are re-delivered through the library's own operations: predictions stacked with Concat, batches cut from one tensor with Slice, small integer predictions decoded from one-hot rows with Dot + Flatten",
 		"the reference model is two integers per instance; float64(correct)/float64(total) is the defined result",
 	}
 }
@@ -37,7 +38,7 @@ func (c19) Extra() map[string]any {
 	return e
 }
 
-var c19Labels = []float64{0, 1, 2, 3, 0.5, 1.5, -1, 7, 1e6, -0.25, math.Copysign(0, -1), 1e300, -1e300, 1e-200}
+var c19Labels = []float64{0, 1, 2, 3, 0.5, 1.5, -1, 7, 1e6, -0.25, math.Copysign(0, -1), 1e300, -1e300, 1e-200, math.NaN(), math.Inf(1), math.Inf(-1)}
 
 var c19Bad = []string{"nil-yp", "nil-yt", "nil-both", "rank0", "rank2", "len-mismatch", "rank-mixed"}
 
@@ -80,7 +81,7 @@ func (c19) Generate(r *sim.Rand, tier string) *sim.Scenario {
 			n := r.Range(1, 6)
 			st := sim.Step{C: c, Op: "bad", Tag: c19Bad[r.Intn(len(c19Bad))], N: n, Out: -1}
 			for i := 0; i < 2*n+1; i++ {
-				st.F = append(st.F, c19Labels[r.Intn(nlabels)])
+				st.F = append(st.F, c19enc(c19Labels[r.Intn(nlabels)]))
 			}
 			sc.Steps = append(sc.Steps, st)
 		case r.Bool(0.25):
@@ -91,11 +92,11 @@ func (c19) Generate(r *sim.Rand, tier string) *sim.Scenario {
 			yp := make([]float64, n)
 			yt := make([]float64, n)
 			for i := range yp {
-				yp[i] = c19Labels[r.Intn(nlabels)]
+				yp[i] = c19enc(c19Labels[r.Intn(nlabels)])
 				if r.Bool(pMatch) {
 					yt[i] = yp[i]
 				} else {
-					yt[i] = c19Labels[r.Intn(nlabels)]
+					yt[i] = c19enc(c19Labels[r.Intn(nlabels)])
 				}
 			}
 			st.F = append(append(st.F, yp...), yt...)
@@ -169,6 +170,43 @@ func (p c19) Execute(sc *sim.Scenario) *sim.Outcome {
 	return out
 }
 
+// Scenario files are JSON, which cannot carry NaN / Inf: those labels travel
+// as sentinels and are decoded here.
+const (
+	c19NaN    = 9.87654321e200
+	c19PosInf = 9.87654322e200
+	c19NegInf = 9.87654323e200
+)
+
+func c19enc(v float64) float64 {
+	switch {
+	case math.IsNaN(v):
+		return c19NaN
+	case math.IsInf(v, 1):
+		return c19PosInf
+	case math.IsInf(v, -1):
+		return c19NegInf
+	}
+	return v
+}
+
+func c19dec(vs []float64) []float64 {
+	o := make([]float64, len(vs))
+	for i, v := range vs {
+		switch v {
+		case c19NaN:
+			o[i] = math.NaN()
+		case c19PosInf:
+			o[i] = math.Inf(1)
+		case c19NegInf:
+			o[i] = math.Inf(-1)
+		default:
+			o[i] = v
+		}
+	}
+	return o
+}
+
 func (c19) execOne(sc *sim.Scenario) *sim.Outcome {
 	out := sim.NewOutcome()
 	start := sim.Now()
@@ -181,6 +219,7 @@ func (c19) execOne(sc *sim.Scenario) *sim.Outcome {
 	mod := make([]model, ninst)
 	allP := make([][]float64, ninst)
 	allT := make([][]float64, ninst)
+	batches := make([][]int, ninst)
 	for i := range inst {
 		inst[i] = metrics.NewAccuracy()
 	}
@@ -229,7 +268,7 @@ func (c19) execOne(sc *sim.Scenario) *sim.Outcome {
 				out.Discard = "malformed"
 				return out
 			}
-			yp, yt := s.F[:n], s.F[n:2*n]
+			yp, yt := c19dec(s.F[:n]), c19dec(s.F[n:2*n])
 			err := inst[c].Accumulate(vec(yp, s.B), vec(yt, false))
 			if err != nil {
 				out.Fail("valid-call-rejected", "%s: Accumulate of two [%d] tensors returned error: %v", where, n, err)
@@ -243,6 +282,7 @@ func (c19) execOne(sc *sim.Scenario) *sim.Outcome {
 			}
 			allP[c] = append(allP[c], yp...)
 			allT[c] = append(allT[c], yt...)
+			batches[c] = append(batches[c], n)
 			if accepted[c] > 0 && pendingReject[c] {
 				rejectedBetween = true
 			}
@@ -256,6 +296,7 @@ func (c19) execOne(sc *sim.Scenario) *sim.Outcome {
 				out.Discard = "malformed"
 				return out
 			}
+			s.F = c19dec(s.F)
 			var yp, yt tensor.Tensor
 			switch s.Tag {
 			case "nil-yp":
@@ -340,6 +381,115 @@ func (c19) execOne(sc *sim.Scenario) *sim.Outcome {
 		if a != b {
 			out.Fail("partition-dependent", "instance %d: Result()=%v but the same %d positions re-delivered in %d batches give %v", c, a, tot, len(part), b)
 			return finish(out, lh, sig, start)
+		}
+	}
+	/* the same data delivered through the library's own tensor operations */
+	for c := 0; c < ninst; c++ {
+		tot := len(allP[c])
+		if tot == 0 {
+			continue
+		}
+		want, _ := inst[c].Result()
+		same := func(tw *metrics.Accuracy, how string) bool {
+			got, _ := tw.Result()
+			if got != want {
+				out.Fail("partition-dependent", "instance %d: Result()=%v for %d positions in %d batches, but %v when the same data are delivered as %s", c, want, tot, len(batches[c]), got, how)
+				return false
+			}
+			return true
+		}
+		// (a) predictions of all batches stacked with Concat, targets as one tensor
+		if len(batches[c]) >= 2 {
+			var parts []tensor.Tensor
+			pos := 0
+			for _, n := range batches[c] {
+				parts = append(parts, vec(allP[c][pos:pos+n], false))
+				pos += n
+			}
+			cat, err := tensor.Concat(parts, 0)
+			if err != nil {
+				out.Fail("valid-call-rejected", "twin: Concat of %d rank-1 batches failed: %v", len(parts), err)
+				return finish(out, lh, sig, start)
+			}
+			tw := metrics.NewAccuracy()
+			if err := tw.Accumulate(cat, vec(allT[c], false)); err != nil {
+				out.Fail("valid-call-rejected", "twin: Accumulate of the concatenated predictions failed: %v", err)
+				return finish(out, lh, sig, start)
+			}
+			out.Faults["reorder/delivered-via-concat"]++
+			if !same(tw, "one batch whose predictions are the Concat of the original batches") {
+				return finish(out, lh, sig, start)
+			}
+		}
+		// (b) one big tensor split back into the original batches with Slice
+		{
+			wp, wt := vec(allP[c], false), vec(allT[c], false)
+			tw := metrics.NewAccuracy()
+			pos := 0
+			for _, n := range batches[c] {
+				idx := []tensor.Range{{From: pos, To: pos + n}}
+				p, err1 := wp.Slice(idx)
+				t, err2 := wt.Slice(idx)
+				if err1 != nil || err2 != nil {
+					out.Fail("valid-call-rejected", "twin: Slice [%d,%d) of a [%d] tensor failed: %v %v", pos, pos+n, tot, err1, err2)
+					return finish(out, lh, sig, start)
+				}
+				if err := tw.Accumulate(p, t); err != nil {
+					out.Fail("valid-call-rejected", "twin: Accumulate of sliced batches failed: %v", err)
+					return finish(out, lh, sig, start)
+				}
+				pos += n
+			}
+			out.Faults["reorder/delivered-via-slice"]++
+			if !same(tw, "slices of one big tensor") {
+				return finish(out, lh, sig, start)
+			}
+		}
+		// (c) small non-negative integer predictions decoded from one-hot rows with Dot
+		k := 0
+		ok := true
+		for _, v := range allP[c] {
+			if v != math.Trunc(v) || v < 0 || v > 5 || math.IsNaN(v) {
+				ok = false
+				break
+			}
+			if int(v)+1 > k {
+				k = int(v) + 1
+			}
+		}
+		if ok && k >= 2 && tot >= 4 && tot <= 400 {
+			a := 2
+			for a*a < tot && tot%a != 0 {
+				a++
+			}
+			if tot%a == 0 && tot/a >= 2 {
+				b := tot / a
+				oh := make([]float64, tot*k)
+				for i, v := range allP[c] {
+					oh[i*k+int(v)] = 1
+				}
+				ar := make([]float64, k)
+				for i := range ar {
+					ar[i] = float64(i)
+				}
+				dec, err := sim.Leaf([]int{a, b, k}, oh, false).Dot(vec(ar, false))
+				if err == nil {
+					dec, err = dec.Flatten(0)
+				}
+				if err != nil {
+					out.Fail("valid-call-rejected", "twin: Dot / Flatten decode of a [%d,%d,%d] one-hot tensor failed: %v", a, b, k, err)
+					return finish(out, lh, sig, start)
+				}
+				tw := metrics.NewAccuracy()
+				if err := tw.Accumulate(dec, vec(allT[c], false)); err != nil {
+					out.Fail("valid-call-rejected", "twin: Accumulate of decoded predictions failed: %v", err)
+					return finish(out, lh, sig, start)
+				}
+				out.Faults["reorder/delivered-via-dot-decode"]++
+				if !same(tw, fmt.Sprintf("the Dot-decoded [%d,%d,%d] one-hot encoding of the same predictions", a, b, k)) {
+					return finish(out, lh, sig, start)
+				}
+			}
 		}
 	}
 	na := 0
